@@ -8,6 +8,9 @@
 //!             neighbors, astar_path — each checked with validity predicates against independent reference
 //!             algorithms over the model edge list (BFS, Dijkstra cross-checked with Bellman-Ford, bounded
 //!             DFS enumeration).
+//!  * `astar`  all-directed, densely connected graphs without deliberately parallel edges and A* queries only
+//!             (most with a consistent heuristic): the input class in which none of the recorded A* defects
+//!             applies, so a new A* regression is not hidden behind them.
 //!  * `algos`  the same graphs through connected_components, strongly_connected_components (+ condensation),
 //!             minimum_spanning_tree / _forest, kcore_decomposition, count_triangles /
 //!             local_clustering_coefficient, biconnected_components (articulation points, bridges, blocks)
@@ -40,6 +43,7 @@ fn main() {
         ],
         parts: vec![
             PropPart::new("paths", 24_000, 900_000, model::path_case_strategy, paths::check_case).shrink_iters(40_000).boxed(),
+            PropPart::new("astar", 8_000, 300_000, model::astar_case_strategy, paths::check_case).shrink_iters(40_000).boxed(),
             PropPart::new("algos", 12_000, 400_000, model::algo_case_strategy, algos::check_case).shrink_iters(40_000).boxed(),
             Box::new(zero_cycle::part()),
         ],
